@@ -35,6 +35,8 @@ type Cfg struct {
 	// Late: no rule is loaded until the first "rl" op that adds one.
 	Reload bool `json:"reload,omitempty"`
 	Late   bool `json:"late,omitempty"`
+	// NoIDs: the rules carry no ID (nothing then tells the manager which old rule a modified one continues)
+	NoIDs bool `json:"no_ids,omitempty"`
 }
 
 type P struct{}
@@ -66,6 +68,7 @@ func (P) Gen(rng *sim.Rng, tier string) *harness.Case {
 	if !cfg.Conc && rng.Chance(0.3) {
 		cfg.Reload = true
 		cfg.Late = rng.Chance(0.4)
+		cfg.NoIDs = rng.Chance(0.4)
 	}
 	smallCap := !cfg.Conc && !cfg.Reload && rng.Chance(0.25) // few counters: a value in flight must keep its own
 	alpha := alphabet
@@ -125,7 +128,8 @@ func (P) Gen(rng *sim.Rng, tier string) *harness.Case {
 			default:
 				if ticks && cfg.Reload && rng.Chance(0.6) {
 					// N: 0 add/remove a rule, 1 switch its parameter position, 2 change its threshold, 3 load the same rules again
-					ops = append(ops, harness.Op{K: "rl", N: uint64(rng.Weighted([]int{40, 25, 20, 15})), M: uint64(rng.Intn(4))})
+					// 4: one load removes a rule and changes the threshold of the next one
+					ops = append(ops, harness.Op{K: "rl", N: uint64(rng.Weighted([]int{35, 20, 18, 12, 15})), M: uint64(rng.Intn(4))})
 					break
 				}
 				if ticks {
@@ -581,6 +585,9 @@ func execReload(c *harness.Case, o *harness.Outcome, cfg *Cfg, rules [][]*mrule,
 			}
 			r.ptr = &hotspot.Rule{ID: r.ID, Resource: harness.ResName(r.Res), MetricType: hotspot.Concurrency, ControlBehavior: hotspot.Reject,
 				ParamIndex: r.Index, ParamKey: r.Key, Threshold: r.T, SpecificItems: spec, ParamsMaxCapacity: r.Cap}
+			if cfg.NoIDs {
+				r.ptr.ID = ""
+			}
 			all = append(all, r.ptr)
 		}
 		harness.Call(o, "C06.panic", step, func() {
@@ -719,6 +726,16 @@ func execReload(c *harness.Case, o *harness.Outcome, cfg *Cfg, rules [][]*mrule,
 			case 2:
 				r.T = (r.T + 1) % 4
 				r.epoch++
+			case 4:
+				if r.loaded {
+					r.loaded = false
+					r2 := flat[(int(op.M)+1)%len(flat)]
+					if r2 != r {
+						r2.T = (r2.T + 1) % 4
+						r2.epoch++
+						o.Probe("one_load_removes_a_rule_and_modifies_another")
+					}
+				}
 			}
 			if liveNow > 0 {
 				o.Probe("rules_changed_with_entries_in_flight")
